@@ -17,6 +17,9 @@ thread_local! {
     static LAST_CH: RefCell<i64> = const { RefCell::new(0) };
 }
 
+/// thread-local instances created minus dropped in the current execution (maintained by the interpreter)
+pub static TLS_LIVE: std::sync::atomic::AtomicI64 = std::sync::atomic::AtomicI64::new(0);
+
 pub fn log(ev: serde_json::Value) {
     CUR.with(|c| c.borrow_mut().push(ev.to_string()));
 }
@@ -30,6 +33,8 @@ pub fn finish_exec(end: serde_json::Value) {
     if !is_open() {
         return;
     }
+    let mut end = end;
+    end["tlslive"] = json!(TLS_LIVE.swap(0, std::sync::atomic::Ordering::SeqCst));
     log(end);
     // the runtime's own record of this execution (still in place until the next execution starts)
     let sched = shuttle_engine::runtime::execution::CurrentSchedule::get_schedule();
